@@ -34,7 +34,21 @@ def zi(key: str) -> zoneinfo.ZoneInfo:
 
 @functools.lru_cache(None)
 def all_zones() -> tuple:
-    return tuple(sorted(zoneinfo.available_timezones()))
+    try:
+        with R.files("tzdata").joinpath("zones").open() as f:
+            zs = [ln.strip() for ln in f if ln.strip()]
+    except Exception:
+        zs = [z for z in zoneinfo.available_timezones()]
+    ok = []
+    for z in sorted(set(zs)):
+        if z == "localtime" or z.startswith(("right/", "posix/")):
+            continue
+        try:
+            zoneinfo.ZoneInfo(z)
+        except Exception:
+            continue
+        ok.append(z)
+    return tuple(ok)
 
 
 def td_us(td: D.timedelta) -> int:
